@@ -49,13 +49,30 @@ def top_heads(type_text: str) -> set[str]:
     heads = set()
     for p in parts:
         p = p.strip()
+        if p.startswith("Literal["):
+            inner = p[len("Literal["):].rstrip("?").rstrip("]")
+            if inner[:1] in "'\"":
+                heads.add("builtins.str")
+            elif inner in ("True", "False"):
+                heads.add("builtins.bool")
+            elif inner.lstrip("-").isdigit():
+                heads.add("builtins.int")
+            else:
+                heads.add(inner.rsplit(".", 1)[0])  # enum member -> its class
+            continue
         for stop in "[(":
             if stop in p:
                 p = p[: p.index(stop)]
         if p.endswith("?"):
             p = p[:-1]
-        heads.add(p.strip())
+        p = p.strip()
+        if p in _BUILTINS:
+            p = "builtins." + p
+        heads.add(p)
     return heads
+
+
+_BUILTINS = {"str", "int", "float", "bool", "bytes", "list", "dict", "set", "frozenset", "tuple", "object", "complex"}
 
 
 class Protected:
